@@ -208,6 +208,29 @@ fn names_family(c: &mut Ctx) {
                         let rp = c.replay_of(fam, idx, json!({"a": hex(&pool[i]), "b": hex(&pool[j])}));
                         c.violation("law:lowercase_composed_cmp", "lowercase_composed_cmp differs from octet order of lower-cased wire forms", rp);
                     }
+                    // composed_cmp is the octet order of the uncompressed wire forms, whatever the representation
+                    // (two flat names take a shortcut over their slices; chains and compressed names go label by label)
+                    let want_cc = pool[i].cmp(&pool[j]);
+                    let want_lc = w::lower(&pool[i]).cmp(&w::lower(&pool[j]));
+                    for (rep, cc, lc) in [
+                        ("flat/flat", flat[i].composed_cmp(&flat[j]), flat[i].lowercase_composed_cmp(&flat[j])),
+                        ("flat/chain", flat[i].composed_cmp(&chains[j]), flat[i].lowercase_composed_cmp(&chains[j])),
+                        ("chain/flat", chains[i].composed_cmp(&flat[j]), chains[i].lowercase_composed_cmp(&flat[j])),
+                        ("chain/chain", chains[i].composed_cmp(&chains[j]), chains[i].lowercase_composed_cmp(&chains[j])),
+                        ("parsed/parsed", parsed[i].composed_cmp(&parsed[j]), parsed[i].lowercase_composed_cmp(&parsed[j])),
+                        ("parsed/chain", parsed[i].composed_cmp(&chains[j]), parsed[i].lowercase_composed_cmp(&chains[j])),
+                        ("flat/parsed", flat[i].composed_cmp(&parsed[j]), flat[i].lowercase_composed_cmp(&parsed[j])),
+                    ] {
+                        if cc != want_cc {
+                            let rp = c.replay_of(fam, idx, json!({"a": hex(&pool[i]), "b": hex(&pool[j]), "rep": rep}));
+                            c.violation(&format!("law:composed_cmp:{}", rep), &format!("composed_cmp({}, {}) = {} in representation {}, the wire forms order {}", w::name_text(&pool[i]), w::name_text(&pool[j]), ord_s(cc), rep, ord_s(want_cc)), rp);
+                        }
+                        if lc != want_lc {
+                            let rp = c.replay_of(fam, idx, json!({"a": hex(&pool[i]), "b": hex(&pool[j]), "rep": rep}));
+                            c.violation(&format!("law:lowercase_composed_cmp:{}", rep), &format!("lowercase_composed_cmp({}, {}) = {} in representation {}, the lower-cased wire forms order {}", w::name_text(&pool[i]), w::name_text(&pool[j]), ord_s(lc), rep, ord_s(want_lc)), rp);
+                        }
+                    }
+                    c.count("composed_cmp_pairs", 7);
                     c.eval(&("name-pair", req, rcmp as i8, pool[i].len().min(40) / 8, parsed[j].is_compressed()));
                 }
             }
@@ -247,6 +270,14 @@ fn names_family(c: &mut Ctx) {
                     let bl: Vec<u8> = b.to_ascii_lowercase();
                     if (la == lb) != (al == bl) || la.cmp(lb) != al.cmp(&bl) || ((al == bl) && hash64(la) != hash64(lb)) {
                         c.violation("law:label", &format!("Label eq/cmp/hash incoherent for {} / {}", hex(a), hex(b)), c.replay_of(fam, idx, json!({"a": hex(a), "b": hex(b)})));
+                    }
+                    // composed order of labels: length octet first, then content
+                    let mut ca = vec![a.len() as u8];
+                    ca.extend_from_slice(a);
+                    let mut cb = vec![b.len() as u8];
+                    cb.extend_from_slice(b);
+                    if la.composed_cmp(lb) != ca.cmp(&cb) || la.lowercase_composed_cmp(lb) != ca.to_ascii_lowercase().cmp(&cb.to_ascii_lowercase()) {
+                        c.violation("law:label-composed_cmp", &format!("Label::composed_cmp / lowercase_composed_cmp of {} / {} differ from the order of the composed labels", hex(a), hex(b)), c.replay_of(fam, idx, json!({"a": hex(a), "b": hex(b)})));
                     }
                     c.count("label_pairs", 1);
                 }
